@@ -691,13 +691,15 @@ def _strategies():
     })
 
     sub = st.tuples(st.sampled_from(SUB_KINDS), coord, coord, size, size, st.integers(0, 15))
-    kinds = st.sampled_from(GROUP_KINDS + ["shape", "group", "group", "group", "freeform", "connector"])
-    op = st.fixed_dictionaries({
-        "k": kinds, "c": st.sampled_from([0, 0, 0, 0, 1, 1, 2, 3, 4, 5]), "x": coord, "y": coord, "w": size, "h": size,
-        "aux": st.integers(0, 15),
-        "m": st.lists(sub, min_size=1, max_size=3),
-    }).map(lambda d: d if d["k"] == "group_of" else {k: v for k, v in d.items() if k != "m"})
-    first = op.filter(lambda d: d["k"] in ("group", "group_of"))
+    def op_of(kind_strategy):
+        return st.fixed_dictionaries({
+            "k": kind_strategy, "c": st.sampled_from([0, 0, 0, 0, 1, 1, 2, 3, 4, 5]), "x": coord, "y": coord,
+            "w": size, "h": size, "aux": st.integers(0, 15),
+            "m": st.lists(sub, min_size=1, max_size=3),
+        }).map(lambda d: d if d["k"] == "group_of" else {k: v for k, v in d.items() if k != "m"})
+
+    op = op_of(st.sampled_from(GROUP_KINDS + ["shape", "group", "group", "group", "freeform", "connector"]))
+    first = op_of(st.sampled_from(["group", "group", "group_of"]))  # cases that start by making a group
     grp = st.fixed_dictionaries({"ops": st.one_of(
         st.lists(op, min_size=1, max_size=14),
         st.tuples(first, st.lists(op, min_size=1, max_size=13)).map(lambda t: [t[0]] + t[1]),
@@ -736,11 +738,11 @@ def jobs(tier):
     t = tier == "thorough"
     js = []
     for i in range(16):
-        js.append({"kind": "cxn", "shard": i, "n": 8000 if t else 400})
+        js.append({"kind": "cxn", "shard": i, "n": 6000 if t else 400})
     for i in range(16):
-        js.append({"kind": "grp", "shard": i, "n": 4000 if t else 300})
+        js.append({"kind": "grp", "shard": i, "n": 3000 if t else 300})
     for i in range(16):
-        js.append({"kind": "ff", "shard": i, "n": 8000 if t else 400})
+        js.append({"kind": "ff", "shard": i, "n": 5000 if t else 400})
     return js
 
 
